@@ -79,6 +79,8 @@ inductive SysOp where
   | deliver (j : Nat)                  -- the network hands a copy of `net[j]` to `b` (straight to `process_reliable`)
   | deliverH (now : Time) (j : Nat)    -- the same copy through the whole receive path `b.handle`: gates, acknowledgement, `process_reliable`
   | inject (now : Time) (p : Packet)   -- somebody hands `b.handle` ANY packet whose signature is not the one `b` expects of it
+  | ackIn (now : Time) (p : Packet)    -- `a.handle` is handed ANY acknowledgement (ACK or aggregate MULTI_ACK flag; true, stale,
+                                       -- coalesced or forged) of a non-handshake packet
 
 /-- `send` raises before doing anything (closed connection / invalid substream) -/
 def sendRefused (c : Conn) (sub : Nat) : Bool := decide (c.state ≠ STATE_CONNECTED) || decide (sub > c.maxSub)
@@ -125,6 +127,7 @@ def Sys.step (env : Env) (sub : Nat) (s : Sys) : SysOp → Sys
         else 0
       { s with b := (s.b.handle env now p).c, nrel := s.nrel + k }
   | .inject now p => { s with b := (s.b.handle env now p).c }
+  | .ackIn now p => { s with a := (s.a.handle env now p).c }
 
 def Sys.run (env : Env) (sub : Nat) (s : Sys) (ops : List SysOp) : Sys := ops.foldl (Sys.step env sub) s
 
@@ -147,6 +150,7 @@ def Sys.opOk (env : Env) (sub : Nat) (s : Sys) : SysOp → Bool
   | .deliver j => decide (j < s.nrel + 32768 ∧ s.nrel < j + 32768) || decide (s.net.length ≤ j)
   | .deliverH _ j => decide (j < s.nrel + 32768 ∧ s.nrel < j + 32768) || decide (s.net.length ≤ j)
   | .inject _ p => decide (p.signature ≠ s.b.expectedSig env p)
+  | .ackIn _ p => (hasAck p.flags || hasMultiAck p.flags) && decide (p.type ≠ TYPE_SYN) && decide (p.type ≠ TYPE_CONNECT)
 
 def Sys.runOk (env : Env) (sub : Nat) : Sys → List SysOp → Bool
   | _, [] => true
@@ -488,6 +492,77 @@ theorem sendPing_eq (env : Env) (now : Time) (c : Conn) (n pos : Nat) (hs : SRel
   simp [wireOf, kindOf, hnd]
   decide
 
+/-! ### acknowledgements touch timers only -/
+
+/-- what handling an acknowledgement may change: nothing of the send path's data state -/
+structure AckFr (c c' : Conn) : Prop where
+  ctr : c'.counters = c.counters
+  ciph : c'.relCiphers = c.relCiphers
+  con : c'.cipherOn = c.cipherOn
+  fs : c'.fragmentSize = c.fragmentSize
+  st : StateFr c c'
+
+theorem ackFr_refl (c : Conn) : AckFr c c := ⟨rfl, rfl, rfl, rfl, stateFr_refl c⟩
+
+theorem ackFr_trans {a b c : Conn} (h1 : AckFr a b) (h2 : AckFr b c) : AckFr a c :=
+  ⟨h2.ctr.trans h1.ctr, h2.ciph.trans h1.ciph, h2.con.trans h1.con, h2.fs.trans h1.fs, stateFr_trans h1.st h2.st⟩
+
+theorem ackFr_cleanup (c : Conn) : AckFr c c.cleanup.c := ⟨rfl, rfl, rfl, rfl, Or.inr rfl⟩
+
+theorem ackFr_bind (c : Conn) (r : R) (f : Conn → R) (hr : AckFr c r.c) (hf : ∀ x, AckFr x (f x).c) : AckFr c (r.bind f).c := by
+  unfold R.bind
+  cases r.err with
+  | some e => exact hr
+  | none => exact ackFr_trans hr (hf _)
+
+theorem handleAggregateAck_frame (env : Env) (c : Conn) (p : Packet) : AckFr c (c.handleAggregateAck env p).c := by
+  unfold Conn.handleAggregateAck
+  split
+  · exact ackFr_refl c
+  · split
+    · exact ackFr_refl c
+    · split
+      · exact ackFr_refl c
+      · simp only []
+        split
+        · exact ackFr_refl c
+        · exact ⟨rfl, rfl, rfl, rfl, Or.inl rfl⟩
+
+/-- **an acknowledgement changes nothing the data path depends on**: whatever packet with the ACK or MULTI_ACK flag (and not of
+    the handshake types) is handed to `handle` — genuine, stale, coalesced into an aggregate ack, or forged — the sequence
+    counters, the stream ciphers and the fragment size of the connection are what they were; at most timers are cancelled and,
+    for an acknowledged DISCONNECT, the connection is cleaned up -/
+theorem handle_ack_frame (env : Env) (now : Time) (c : Conn) (p : Packet) (hack : (hasAck p.flags || hasMultiAck p.flags) = true)
+    (hns : p.type ≠ TYPE_SYN) (hnc : p.type ≠ TYPE_CONNECT) : AckFr c (c.handle env now p).c := by
+  unfold Conn.handle
+  split
+  · exact ackFr_refl c
+  · split
+    · exact ackFr_refl c
+    · simp only [hns, hnc, if_false]
+      apply ackFr_bind
+      · unfold Conn.processOther
+        split
+        · exact ackFr_refl c
+        · split
+          · exact handleAggregateAck_frame env c p
+          · rename_i hm
+            have hm' : hasMultiAck p.flags = false := bool_false_of_not_true hm
+            have ha : hasAck p.flags = true := by simpa [hm'] using hack
+            split
+            · exact ackFr_refl c
+            · split
+              · exact ackFr_refl c
+              · exact ackFr_refl c
+      · intro x
+        split
+        · split
+          · split
+            · exact ⟨rfl, rfl, rfl, rfl, Or.inr rfl⟩
+            · exact ⟨rfl, rfl, rfl, rfl, Or.inl rfl⟩
+          · exact ackFr_refl x
+        · exact ackFr_refl x
+
 /-! ## the coupling with the L2 channel -/
 
 /-- the L2 channel state `ch` describes the system `s` (substream `sub`, cipher `ci`, fragment size `size`) -/
@@ -523,6 +598,7 @@ def Sys.absOp (env : Env) (sub : Nat) (s : Sys) : SysOp → Option Op
     | none => none
     | some p => if s.b.accepts env now p then some (.arrive j) else none
   | .inject _ _ => none
+  | .ackIn _ _ => none
 
 def stepOpt (ci : Cipher) (size : Nat) (ch : Chan) : Option Op → Chan
   | none => ch
@@ -867,6 +943,18 @@ theorem cpl_step (env : Env) (hcomp : ∀ b, env.compress b = b) (hdec : ∀ b, 
     rw [this]
     exact ⟨h, fun o ho => by cases ho⟩
 
+  | ackIn now p =>
+    simp only [Sys.absOp, stepOpt, Sys.step]
+    simp only [Sys.opOk, Bool.and_eq_true, decide_eq_true_eq] at hok
+    obtain ⟨⟨hack, hns⟩, hnc⟩ := hok
+    have hf := handle_ack_frame env now s.a p hack hns hnc
+    refine ⟨?_, fun o ho => by cases ho⟩
+    refine ⟨by rw [hf.fs]; exact h.size, ?_, ?_, h.log, h.netgood, h.netord, h.blink, h.beof, h.sent,
+      fun hst => h.opn (connected_of_stateFr hf.st hst), h.cln, h.pend, h.bwf, h.bwin, h.rrel, h.bcipher, h.nrel⟩
+    · obtain ⟨hc, sc, hsc, hpos⟩ := h.srel
+      exact ⟨by rw [hf.ctr]; exact hc, sc, by rw [hf.ciph]; exact hsc, fun hon => hpos (by rw [← hf.con]; exact hon)⟩
+    · rw [← h.acipher]; simp only [cipherOf, hf.ciph, hf.con]
+
 /-! ## whole runs -/
 
 /-- coupling plus the two invariants of the L2 channel -/
@@ -1007,6 +1095,66 @@ theorem fresh_good (env : Env) (sub : Nat) (hsub : sub ≤ env.s.maxSubstreamId)
       bwin := ⟨_, replicate_get _ _ _ hn, (fun kq hkq => by cases hkq), rfl⟩
       rrel := ⟨rfl, hq.symm, fun _ => ⟨hf.symm, fun _ => ⟨_, replicate_get _ _ _ hn, rfl⟩⟩⟩
       bcipher := by simp only [cipherOf, Sys.fresh, a, b, Conn.new, replicate_get _ _ _ hn]
+      nrel := rfl }
+  exact ⟨hcpl, hi.1, hi.2⟩
+
+end Nx.L1
+
+namespace Nx.L1
+open Nx Nx.Prudp Nx.Chan Nx.Crypto
+
+theorem keyChain_length : ∀ (n : Nat) (k : Bytes), (keyChain n k).length = n := by
+  intro n
+  induction n with
+  | zero => intro k; rfl
+  | succ n ih => intro k; simp [keyChain, ih]
+
+/-- **the coupling also holds after both sides have logged in with the same session key** (`login` → `set_session_key`:
+    every substream's cipher restarts at position 0 under the key chain derived from the session key): two freshly constructed
+    endpoints that logged in with one key — whatever the user ids — and the initial channel are coupled -/
+theorem fresh_good_login (env : Env) (sub : Nat) (hsub : sub ≤ env.s.maxSubstreamId) (key : Bytes) (pa ca pb cb : Nat)
+    (va vb : Option Nat) (ua cka sa ub ckb sb : Nat) (la ra lb rb : Addr) (lpa lta rpa rta lpb ltb rpb rtb : Nat) (st stb : Nat)
+    (rsb : Option Nat) :
+    let a := { (Conn.new env va ua cka sa la lpa lta ra rpa rta).login pa ca key with state := st }
+    let b := { (Conn.new env vb ub ckb sb lb lpb ltb rb rpb rtb).login pb cb key with state := stb, remoteSessionId := rsb }
+    Good sub (cipherOf a sub) env.s.fragmentSize 1 (Sys.fresh a b) (Chan.init 1) := by
+  intro a b
+  have hn : sub < env.s.maxSubstreamId + 1 := by omega
+  have hi := inv_init (cipherOf a sub) 1 (by omega)
+  have hq : ((List.replicate (env.s.maxSubstreamId + 1) ([] : List Bytes))[sub]?).getD [] = [] := by
+    rw [replicate_get _ _ _ hn]; rfl
+  have hf : ((List.replicate (env.s.maxSubstreamId + 1) ([] : Bytes))[sub]?).getD [] = [] := by
+    rw [replicate_get _ _ _ hn]; rfl
+  have hlen : (keyChain (List.replicate (env.s.maxSubstreamId + 1) ({ key := [0x43, 0x44, 0x26, 0x4D, 0x4C] } : StreamCipher)).length key).length
+      = env.s.maxSubstreamId + 1 := by rw [keyChain_length]; simp
+  obtain ⟨k, hk⟩ : ∃ k, (keyChain (List.replicate (env.s.maxSubstreamId + 1) ({ key := [0x43, 0x44, 0x26, 0x4D, 0x4C] } : StreamCipher)).length key)[sub]? = some k := by
+    have : sub < (keyChain (List.replicate (env.s.maxSubstreamId + 1) ({ key := [0x43, 0x44, 0x26, 0x4D, 0x4C] } : StreamCipher)).length key).length := by
+      rw [hlen]; exact hn
+    exact ⟨_, List.getElem?_eq_getElem this⟩
+  have hca : a.relCiphers[sub]? = some { key := k } := by
+    simp only [a, Conn.login, Conn.new, List.getElem?_map, hk, Option.map]
+  have hcb : b.relCiphers[sub]? = some { key := k } := by
+    simp only [b, Conn.login, Conn.new, List.getElem?_map, hk, Option.map]
+  have hcpl : Cpl sub (cipherOf a sub) env.s.fragmentSize (Sys.fresh a b) (Chan.init 1) :=
+    { size := rfl
+      srel := ⟨replicate_get _ _ _ hn, ⟨_, hca, fun _ => rfl⟩⟩
+      acipher := rfl
+      log := rfl
+      netgood := fun p hp => by cases hp
+      netord := fun p hp => by cases hp
+      blink := rfl
+      beof := fun he => by cases he
+      sent := rfl
+      opn := fun _ => rfl
+      cln := rfl
+      pend := rfl
+      bwf := ⟨(List.getElem?_eq_some_iff.mp hcb).1, by simp [Sys.fresh, b, Conn.login, Conn.new, hn], by simp [Sys.fresh, b, Conn.login, Conn.new, hn]⟩
+      bwin := ⟨_, replicate_get _ _ _ hn, (fun kq hkq => by cases hkq), rfl⟩
+      rrel := ⟨rfl, hq.symm, fun _ => ⟨hf.symm, fun _ => ⟨_, hcb, rfl⟩⟩⟩
+      bcipher := by
+        show cipherOf b sub = cipherOf a sub
+        simp only [cipherOf, hca, hcb]
+        rfl
       nrel := rfl }
   exact ⟨hcpl, hi.1, hi.2⟩
 
